@@ -189,7 +189,8 @@ def run(prog, tier):
     # list order: they are the true gradient only if each component hands its derivatives over exact and in parameter order -
     # the clause C11 shares with C10, decided there
     from .common import borrow
-    shared = borrow(prog, tier, "C10", {"mean-gradient", "gradient-is-derivative", "composition-order"}, "component-gradients-exact",
+    shared = borrow(prog, tier, "C10", {"mean-gradient", "gradient-is-derivative", "composition-order", "changepoint-instance", "changepoint-siblings",
+                                        "composite-structure"}, "component-gradients-exact",
                     "the marginal-likelihood and LOO gradients are assembled from the kernels' and means' own gradient lists")
     # the LOO formulas and both gradients read the stored alpha = K^-1 (y - mu) and the factor L as given: that they ARE that is the
     # closed-form clause of C02 (its predictors use the same two attributes), decided there
